@@ -2,7 +2,7 @@
    Model: Model/Pool.v, one op per atomic region of cassandra/pool.py (repaired code, see findings/C12.json).
    Every theorem quantifies over EVERY sequence of atomic steps, of any length, from any number of threads. *)
 From Coq Require Import ZArith List Bool Lia.
-From Verif Require Import Pool Pool_base C12_proofs.
+From Verif Require Import Pool Pool_base C12_proofs PoolV2 C12v2_proofs.
 Import ListNotations.
 Local Open Scope Z_scope.
 
@@ -54,3 +54,46 @@ Example C12_nonvacuous :
   quiescent s = true /\ length (conns s) = 2%nat /\ all_closed s = true /\ In ShutdownFlag C12_hist /\
   trash (run (init true 3 2) (firstn 15 C12_hist)) = [0%nat].
 Proof. vm_compute. repeat split; auto 20. Qed.
+
+(* ------------------------------------------------------------------------------------------------
+   HostConnectionPool (protocol v1/v2), Model/PoolV2.v: same four statements, for every sequence of its atomic steps. *)
+Theorem C12v2_capacity : forall (n : nat) (co mc mx mr mn : Z) (ops : list lop) (c : nat),
+  0 <= mx -> l_inflight (lget (lrun (linit n co mc mx mr mn) ops) c) <= mx.
+Proof.
+  intros n co mc mx mr mn ops c H. pose proof (linv_accounting _ c (LInv_run ops _ (LInv_init n co mc mx mr mn H))) as [H1 _].
+  rewrite lmaxid_run in H1. exact (proj2 H1).
+Qed.
+Print Assumptions C12v2_capacity.
+
+Theorem C12v2_nonneg : forall (n : nat) (co mc mx mr mn : Z) (ops : list lop) (c : nat),
+  0 <= mx ->
+  let k := lget (lrun (linit n co mc mx mr mn) ops) c in
+  0 <= l_inflight k /\ l_inflight k = l_live k + l_orph k.
+Proof.
+  intros n co mc mx mr mn ops c H k. pose proof (linv_accounting _ c (LInv_run ops _ (LInv_init n co mc mx mr mn H))) as [H1 H2].
+  subst k. split; [exact (proj1 H1)|exact H2].
+Qed.
+Print Assumptions C12v2_nonneg.
+
+(* borrow_connection and every iteration of _wait_for_conn test is_shutdown first (LShutCheck) and raise when it is set *)
+Theorem C12v2_borrow_after_shutdown_fails : forall (n : nat) (co mc mx mr mn : Z) (ops1 ops2 : list lop),
+  lshut (lrun (linit n co mc mx mr mn) ops1) = true ->
+  snd (lstep (lrun (lrun (linit n co mc mx mr mn) ops1) ops2) LShutCheck) = [LBool true].
+Proof. intros n co mc mx mr mn ops1 ops2 H. simpl. rewrite (lshut_run ops2 _ H). reflexivity. Qed.
+Print Assumptions C12v2_borrow_after_shutdown_fails.
+
+Theorem C12v2_closes_everything : forall (n : nat) (co mc mx mr mn : Z) (ops : list lop),
+  0 <= mx -> In LShutdownFlag ops -> lquiescent (lrun (linit n co mc mx mr mn) ops) = true ->
+  lall_closed (lrun (linit n co mc mx mr mn) ops) = true.
+Proof. intros n co mc mx mr mn ops H _ Hq. apply linv_closes; [apply LInv_run, LInv_init, H|exact Hq]. Qed.
+Print Assumptions C12v2_closes_everything.
+
+(* non-vacuous: a second connection is spawned, retired into the trash with a stream in flight, a third one is being opened
+   while shutdown() runs: all three end up closed *)
+Example C12v2_nonvacuous :
+  let ops := [LTake 0; LTake 0; LMaybeSpawn; LTaskCheck; LTaskConnect 0; LTaskAppend 0; LTaskDone; LTake 1; LTrash 1;
+              LMaybeSpawn; LTaskCheck; LTaskConnect 1; LShutdownFlag; LShutdownConns; LShutdownTrash; LTaskAppend 1; LTaskDone] in
+  let s := lrun (linit 1 1 3 3 2 1) ops in
+  lquiescent s = true /\ length (lconns s) = 3%nat /\ lall_closed s = true /\
+  ltrash (lrun (linit 1 1 3 3 2 1) (firstn 9 ops)) = [1%nat].
+Proof. vm_compute. repeat split. Qed.
